@@ -98,6 +98,61 @@ def prove(S, name, A, B=None, timeout=30, tol=None, replay=None, signature=None,
     return rec
 
 
+def prove_claim(S, name, zclaim, replay=None, signature=None, timeout=60, symbols=None, used_polys=()):
+    """z3 validity of an arbitrary Boolean claim (inequalities, ranges) under the session constraints and the path condition"""
+    import z3
+
+    t0 = time.time()
+    sol = z3.Solver()
+    sol.set("timeout", int(timeout * 1000))
+    used = set()
+    for p in used_polys:
+        used |= sx.P.variables(p)
+    neg = z3.Not(zclaim)
+    for e in [neg] + list(S.pathcond):
+        for v in sx._z3_var_names(e):
+            i = S.V.index.get(v)
+            if i is not None:
+                used.add(i)
+    sol.add(*S.z3constraints(used if used else None))
+    sol.add(*S.pathcond)
+    sol.add(neg)
+    r = str(sol.check())
+    rec = {"name": name, "symbols": symbols or sorted(S.V.names[i] for i in used if i)[:12], "solver": f"z3:{r}", "solver_s": round(time.time() - t0, 4), "time_s": round(time.time() - t0, 4),
+           "queries": 1, "nontrivial": True}
+    if S.assumed:
+        rec["path_assumptions"] = list(S.assumed)
+    if r == "unsat":
+        rec["status"] = DISCHARGED
+        tw = sx.satisfiable(S)
+        rec["queries"] = 2
+        if tw == "unsat":
+            rec["status"] = HARNESS_ERROR
+            rec["detail"] = "reachability twin unsat: constraints/path condition contradictory (vacuous obligation)"
+        return rec
+    if r == "sat":
+        model = sx.model_floats(S, sol.model())
+        rec["model"] = dict(model.get("vars", {}))
+        if replay is None:
+            rec["status"] = INCONCLUSIVE
+            rec["detail"] = "sat model but no replay available"
+            return rec
+        try:
+            ok, payload = replay(model)
+        except Exception as e:
+            rec["status"] = INCONCLUSIVE
+            rec["detail"] = f"replay raised {e!r}"
+            return rec
+        if ok:
+            rec.update(status=VIOLATED, replay=payload, signature=signature or name, detail=f"counterexample reproduces on the unmodified library: {payload.get('observed', '')}")
+        else:
+            rec.update(status=INCONCLUSIVE, detail="solver model does not reproduce in floating point (spurious or inside tolerance)")
+        return rec
+    rec["status"] = INCONCLUSIVE
+    rec["detail"] = f"solver returned unknown within {timeout}s"
+    return rec
+
+
 def unsupported(name, e):
     return {"name": name, "status": UNSUPPORTED, "detail": f"{type(e).__name__}: {e}"[:300]}
 
